@@ -635,6 +635,29 @@ class Model:
         """
         del self._ids[name]
 
+
+    def _check_ids_are_free(self, names: Iterable[str], ctx: str) -> None:
+        """Raise if one of the names could not be inserted, without inserting any.
+
+        Edits of several components check all of them first, so a rejected edit is
+        not applied partially.
+        """
+        for name in names:
+            if name == "time":
+                msg = "time is a protected variable for time"
+                raise KeyError(msg)
+            if name in self._ids:
+                msg = f"Model already contains {ctx} called '{name}'"
+                raise NameError(msg)
+
+    @staticmethod
+    def _check_all_known(names: Iterable[str], known: Mapping, kind: str) -> None:
+        """Raise if one of the names is missing, see _check_ids_are_free."""
+        for name in names:
+            if name not in known:
+                msg = f"{name!r} not found in {kind}"
+                raise KeyError(msg)
+
     ##########################################################################
     # Parameters - views
     ##########################################################################
@@ -746,6 +769,7 @@ class Model:
             Self: The instance of the model with the added parameters.
 
         """
+        self._check_ids_are_free(parameters, ctx="parameter")
         for k, v in parameters.items():
             if isinstance(v, Parameter):
                 self.add_parameter(k, v.value, unit=v.unit, source=v.source)
@@ -791,6 +815,7 @@ class Model:
             Self: The instance of the model with the specified parameters removed.
 
         """
+        self._check_all_known(names, self._parameters, "parameters")
         for name in names:
             self.remove_parameter(name)
         return self
@@ -854,6 +879,7 @@ class Model:
             Self: The instance of the model with updated parameters.
 
         """
+        self._check_all_known(parameters, self._parameters, "parameters")
         for k, v in parameters.items():
             if isinstance(v, Parameter):
                 self.update_parameter(k, value=v.value, unit=v.unit, source=v.source)
@@ -901,6 +927,7 @@ class Model:
             Self: The instance of the model with scaled parameters.
 
         """
+        self._check_all_known(parameters, self._parameters, "parameters")
         for k, v in parameters.items():
             self.scale_parameter(k, v)
         return self
@@ -1106,6 +1133,7 @@ class Model:
             Self: The instance of the model with the added variables.
 
         """
+        self._check_ids_are_free(variables, ctx="variable")
         for name, v in variables.items():
             if isinstance(v, Variable):
                 self.add_variable(
@@ -1173,6 +1201,8 @@ class Model:
             Self: The instance of the model with the specified variables removed.
 
         """
+        variables = list(variables)
+        self._check_all_known(variables, self._variables, "variables")
         for variable in variables:
             self.remove_variable(
                 name=variable, remove_stoichiometries=remove_stoichiometries
@@ -1231,6 +1261,7 @@ class Model:
             Self: The instance of the model with updated variables.
 
         """
+        self._check_all_known(variables, self._variables, "variables")
         for k, v in variables.items():
             if isinstance(v, Variable):
                 self.update_variable(
